@@ -60,9 +60,11 @@ pub fn gen_len(rng: &mut Rng) -> usize {
         4..=6 => rng.range(13, 48),
         // beyond the small sizes: across 64, 256 and (rarely) 1024
         7 => rng.range(49, 140),
-        8 => match rng.below(16) {
-            0 => rng.range(3000, 10000),
-            1..=4 => rng.range(900, 1100),
+        8 => match rng.below(640) {
+            // beyond 2^16: rare, because every step on such a sentence costs milliseconds
+            0 => rng.range(66_000, 140_000),
+            1..=40 => rng.range(3000, 10000),
+            41..=200 => rng.range(900, 1100),
             _ => rng.range(200, 300),
         },
         _ => rng.range(1, 12),
@@ -165,6 +167,19 @@ pub fn gen_annotated(rng: &mut Rng, allow_unknown: bool) -> Annotated {
     let n = gen_len(rng);
     let chars: Vec<char> = (0..n).map(|_| gen_char(rng)).collect();
     gen_annotated_over(rng, chars, allow_unknown)
+}
+
+/// A short annotated sentence in which every token carries tags (soak runs).
+pub fn gen_annotated_tagged(rng: &mut Rng, max_len: usize, allow_unknown: bool) -> Annotated {
+    let n = rng.range(1, max_len.max(1));
+    let chars: Vec<char> = (0..n).map(|_| gen_char(rng)).collect();
+    let mut a = gen_annotated_over(rng, chars, allow_unknown);
+    for i in 0..n {
+        if (i + 1 == n || a.labels[i] == 1) && a.tags[i].is_empty() {
+            a.tags[i].push(Some(gen_tag(rng)));
+        }
+    }
+    a
 }
 
 /// Random labels and tags over a given character sequence (non-empty, no NUL).
